@@ -300,10 +300,19 @@ func parseMethod(c *simkit.Choices, x *simkit.Ctx) *simkit.Violation {
 				t.Reset()
 			}
 			var err error
-			if c.Bool() {
+			switch c.N(3) {
+			case 0:
 				err = p.Parse(simkit.Exact(d))
-			} else {
+			case 1:
 				err = p.ParseString(string(d))
+			default:
+				// the same instance fed through Write (no end-of-input signal:
+				// JSON documents get a delimiter so that a number completes)
+				dd := d
+				if f == model.JSON {
+					dd = append(simkit.Exact(d), '\n')
+				}
+				_, err = simkit.Feed(p.(io.Writer), dd, drawCuts(c, len(dd)), true, &x.Clock)
 			}
 			if i == nh {
 				perr = err
@@ -487,6 +496,9 @@ func iterator(c *simkit.Choices, x *simkit.Ctx) *simkit.Violation {
 
 // recordFold returns the event stream of folding v (nil if refused).
 func recordFold(v interface{}) []simkit.Ev {
+	if tr, ok := v.(model.Tree); ok {
+		return model.TreeEvents(tr) // cannot be folded (self-referential type)
+	}
 	t := simkit.NewTap(nil)
 	var err error
 	if pi := simkit.Guard(func() { err = gotype.Fold(v, t) }); pi != nil || err != nil {
@@ -528,6 +540,9 @@ func unfolder(c *simkit.Choices, x *simkit.Ctx) *simkit.Violation {
 		te := related[i]
 		if i > 0 && c.N(3) == 0 {
 			te = docs[c.N(len(docs))].te // the same type again: cached unfolders
+		}
+		if uv != 0 && c.N(5) == 0 {
+			te = &model.TreeEntry
 		}
 		v := te.Gen(c)
 		evs := recordFold(v)
